@@ -5,7 +5,7 @@ from core import hx, unhx
 
 LEAN_MODULE = 'QM.Props.C07'
 THEOREMS = ['Cv.C07_container_keys', 'Cv.C07_pod_keys', 'Cv.C07_volume_keys', 'Cv.C07_network_keys', 'Cv.C07_kube_keys', 'Cv.C07_build_keys', 'Cv.C07_image_keys',
-            'Cv.keys_fromContainer', 'Cv.unmanaged_of_keys', 'Cv.keys_startService',
+            'Cv.keys_fromContainer', 'Cv.unmanaged_of_keys', 'Cv.keys_startService', 'Cv.C07_managed_conforms',
             'Cv.C07_container_sections', 'Cv.C07_pod_sections', 'Cv.C07_volume_sections', 'Cv.C07_network_sections', 'Cv.C07_kube_sections', 'Cv.C07_build_sections',
             'Cv.frame_fromContainer', 'Cv.frame_fromPod', 'Cv.frame_fromVolume', 'Cv.frame_fromNetwork', 'Cv.frame_fromKube', 'Cv.frame_fromBuild', 'Cv.sections_of_frame',
             'Cv.C07_start_passthrough', 'Cv.C07_unit_defaults_first', 'Cv.C07_oneshot_keeps_user_choice', 'Cv.C07_killmode_kept',
